@@ -89,8 +89,10 @@ pub fn check_kind(t: &Trace<'_>, m: &Model, out: &mut CaseOut, prop: &'static st
     // (c0') poll / recv / drive take no request that could be invalid: "invalid request" from one
     // of them while packets are owed means that an owed packet was refused for what it is
     for (i, op) in t.log.ops.iter().enumerate() {
-        if matches!(op.kind, "poll" | "recv" | "drive") && op.outcome == crate::exec::Outcome::Err(crate::exec::ErrRepr::InvalidRequest) && op.snap_before.as_ref().is_some_and(|b| !b.tx.retained.is_empty()) {
-            out.violations.push(viol(prop, format!("{}/replay-refused-without-cause", prop), format!("op#{} {} on conn {:?} returned InvalidRequest while retained packets {:?} were owed", i, op.kind, op.conn, op.snap_before.as_ref().map(|b| b.tx.retained.iter().map(|e| e.packet_id).collect::<Vec<_>>()))));
+        // (nor do they encode anything that needs room: the retained packets are in the arena
+        // already, PUBRELs and acknowledgements are built elsewhere)
+        if matches!(op.kind, "poll" | "recv" | "drive") && matches!(op.outcome, crate::exec::Outcome::Err(crate::exec::ErrRepr::InvalidRequest | crate::exec::ErrRepr::BufferTooSmall)) && op.snap_before.as_ref().is_some_and(|b| !b.tx.retained.is_empty() || !b.tx.release.is_empty()) {
+            out.violations.push(viol(prop, format!("{}/replay-refused-without-cause", prop), format!("op#{} {} on conn {:?} returned {:?} while retained packets {:?} / releases {:?} were owed", i, op.kind, op.conn, op.outcome, op.snap_before.as_ref().map(|b| b.tx.retained.iter().map(|e| e.packet_id).collect::<Vec<_>>()), op.snap_before.as_ref().map(|b| b.tx.release.iter().map(|e| e.packet_id).collect::<Vec<_>>()))));
             break;
         }
     }
